@@ -6,7 +6,7 @@ from harness import common, wsdlkit, xmlread
 ID = "C10"
 LEAN_MODULES = ["SudsModel.Props.C10"]
 RULE = ("WSDLs with 0..3 services x 0..3 ports over two SOAP bindings (document: f,g / rpc: g,h) and a non-SOAP "
-        "binding interleaved x selector expressions of depth <= 3 over {present names, absent name, indexes -1..3, "
+        "binding interleaved x selector expressions of depth <= 3 over {present names, absent name, indexes -7..3 (negative ones in and out of range), "
         "method names} x service/port options {none, name, index, absent} ; small shapes systematically, the rest "
         "sampled; every selected method is invoked against a recording transport; non-trivial = more than one "
         "service or port, an option set, or an error outcome; distinct = distinct (wsdl, options, expression)"
@@ -167,7 +167,7 @@ def shapes(ctx):
     return out
 
 
-KEYS = ["S1", "S2", "S3", "P1", "P2", "P3", "Q", "zz", -1, 0, 1, 2, 3]
+KEYS = ["S1", "S2", "S3", "P1", "P2", "P3", "Q", "zz", -1, 0, 1, 2, 3, -2, -4, -7]
 METHODS = ["f", "g", "h", "k", "zz"]
 
 
@@ -185,8 +185,8 @@ def expressions(rng, n):
 def run(ctx):
     import suds
     rng = ctx.rng
-    opt_vals_s = [None, "S1", "S2", 0, 1, "zz", 5]
-    opt_vals_p = [None, "P1", "P2", 0, 1, "zz", 5]
+    opt_vals_s = [None, "S1", "S2", 0, 1, "zz", 5, -1, -6]
+    opt_vals_p = [None, "P1", "P2", 0, 1, "zz", 5, -1, -6]
     reqs, reals, metas = [], [], []
     per_shape = ctx.pick(1000, 5000)
     for services in shapes(ctx):
